@@ -211,6 +211,25 @@ def cases(rng, tier, seedfiles, popts_all, popts_default, boundaries):
             for t, c in rng.sample(ALL_CHUNKS, 6 if not thorough else 30):
                 out = [ln if (ln.startswith(b">") or not ln) else ln[:1] + c + ln[1:] for ln in lines]
                 yield Case("parse", [fmt, popts_default(fmt, strict), G.hx(b"\n".join(out))], True, "%s:utf8-column-%s" % (fmt, t))
+    # 3b. multi-Phylip streams and the auto-detecting entry point
+    ph = [d for f, st, d, h, t in seedfiles if f == "phylip" and st == 0 and "wide" not in t]
+    for _ in range(30 if not thorough else 300):
+        parts = []
+        for _ in range(rng.randint(1, 3)):
+            if rng.random() < 0.5:
+                rows, _tags = rand_rows(rng, rng.randint(1, 3), rng.randint(1, 4), 0.5)
+                parts.append(next(iter(files(rng, "phylip", rows)))[1])
+            else:
+                d = rng.choice(ph)
+                t, c = rng.choice(ALL_CHUNKS)
+                k = rng.randrange(len(d) + 1)
+                parts.append(d[:k] + c + d[k:] if rng.random() < 0.5 else d)
+        data = rng.choice([b"", b"\n", b" \n"]).join(parts)
+        yield Case("parsemulti", ["0,%d,2" % rng.randint(0, 2), G.hx(data)], True, "multi:utf8")
+    for fmt, fs in KEYWORD_FILES.items():
+        for data in fs:
+            yield Case("auto", [0, G.hx(data)], True, "auto:utf8-handwritten")
+            yield Case("auto", [1, G.hx(data)], True, "auto:utf8-handwritten")
     # 4. partition strings
     for s in [b"M,p\xc3\xa9=1-3", b"M\xff,p=1-3", b"M,p=1-\xc3\xa9", b"M,p=1\xc2\xa0-3", b"M,p=1-3\xc2\x85N,q=4-5", b"\xef\xbb\xbfM,p=1-3", b"M,p=1-3/\xff",
               b"M,p=\xd9\xa1-3", b"M,p=1-3\xc3", b"M,p=1-3\n\xe2\x82", b"M,p\xc3\xa9=1-3\nM,p\xc3\xa9=4-5\n", b"M,p\xff=1-3\nM,p\xef\xbf\xbd=4-5\n"]:
